@@ -528,17 +528,16 @@ def tab_dec(ctx):
         want = inv.get(v, ("err",))
         obs.append(Ob(r, "x12:%d" % v, got == want, "X12 value %d decodes to %r; 5.2.7 says %r" % (v, got, want), site=T.span_str(b["span"])))
     # EDIFACT values
-    fn = "decodation::dec_edifcat_char"
-    need(fn in f.thir, r, fn)
-    b = f.thir[fn]
-    chp = b["params"][0]["pat"]["name"]
+    etab, esite = edifact_dec_table(ctx, r)
+    unl = f.const("encodation::edifact::UNLATCH")
     for v in range(64):
-        try:
-            got = T.Folder(f, env={chp: v}, effects=True).run(b["body"])
-        except (T.Trap, T.Undecidable) as ex:
-            got = str(ex)
+        got = etab[v]
         want = v if v >= 32 else v + 64
-        obs.append(Ob(r, "edifact:%d" % v, got == want, "EDIFACT value %d decodes to %r; 5.2.8 says %d" % (v, got, want), site=T.span_str(b["span"])))
+        if v == unl:
+            ok = got == [("stop", k) for k in range(4)]
+            obs.append(Ob(r, "edifact:%d" % v, ok, "EDIFACT value %d is the unlatch: at each of the four positions of a triple the run stops there (%r)" % (v, got), site=esite))
+        else:
+            obs.append(Ob(r, "edifact:%d" % v, got == [want] * 4, "EDIFACT value %d decodes to %r at the four positions of a triple; 5.2.8 says %d" % (v, got, want), site=esite))
     # tuple unpacking
     fn = "decodation::decode_c40_tuple"
     need(fn in f.thir, r, fn)
@@ -734,6 +733,51 @@ def _cmp_set(e, var_pred):
     return None
 
 
+def edifact_dec_table(ctx, rule):
+    """what decode_edifact (folded as a whole, with the crate's Reader) appends for six-bit value v placed at each of the four
+    positions of a triple: {v: [byte | ("stop", k) | text]}; the triple is followed by one that starts with the unlatch value"""
+    f = ctx.facts()
+    fn = "decodation::decode_edifact"
+    need(fn in f.thir, rule, fn)
+    b = f.thir[fn]
+    need(len(b["params"]) == 2 and all(p_.get("pat", {}).get("k") == "Bind" for p_ in b["params"]), rule, fn, "(data, out)")
+    pn = [p_["pat"]["name"] for p_ in b["params"]]
+    unl = f.const("encodation::edifact::UNLATCH")
+    need(isinstance(unl, int), rule, "encodation::edifact::UNLATCH")
+    others = [x for x in (33, 2, 50, 4) if x != unl]
+
+    def compute():
+        tab = {}
+        for v in range(64):
+            row = []
+            for k in range(4):
+                vals = list(others[:4])
+                vals[k] = v
+                w = (vals[0] << 18) | (vals[1] << 12) | (vals[2] << 6) | vals[3]
+                raw = [(w >> 16) & 255, (w >> 8) & 255, w & 255, (unl << 2) & 255, 0, 0]
+                rd = {"__adt__": "decodation::Reader", "__variant__": "Reader", "0": list(raw), "#0": list(raw), "1": 5, "#1": 5}
+                out = []
+                try:
+                    T.Folder(f, env={pn[0]: rd, pn[1]: out}, effects=True, local_calls=3).run(b["body"])
+                    want_prefix = [x if x >= 32 else x + 64 for x in vals[:k]]
+                    if out[:k] != want_prefix:
+                        row.append("values before position %d decode to %r" % (k, out[:k]))
+                    elif len(out) == k:
+                        row.append(["stop", k])
+                    elif len(out) == 4 or v != unl:
+                        row.append(out[k] if len(out) == 4 and isinstance(out[k], int) else "appends %r" % (out,))
+                    else:
+                        row.append("appends %r" % (out,))
+                except T.Trap as ex:
+                    row.append("trap: %s" % ex)
+                except T.Undecidable as ex:
+                    row.append("cannot decide: %s" % ex)
+            tab[str(v)] = row
+        return tab
+    tab = ctx.memo("edifact_dec_table", compute)
+    return {int(k): [tuple(x) if isinstance(x, list) else x for x in row] for k, row in tab.items()}, T.span_str(b["span"])
+
+
 def _final_unlatch_by_fold(f, fn):
     """the statements of `fn` after its (one) loop, executed with the reader positioned on each short remainder: the set of
     remainder lengths L (remainder = L codewords, the first being 254) for which exactly that one codeword is consumed, provided
@@ -903,18 +947,14 @@ def tab_codec(ctx):
             got = None
         obs.append(Ob(r, "X12:0x%02X" % ch, got == ch, "X12: value %r of byte 0x%02X decodes back to %r" % (v, ch, got)))
     # EDIFACT: the encoder keeps the low six bits (write4 masks), the decoder restores bit 6
-    b = f.thir["decodation::dec_edifcat_char"]
-    chp = b["params"][0]["pat"]["name"]
+    etab, _esite = edifact_dec_table(ctx, r)
     enc_ok = pred_table(f, "encodation::edifact::is_encodable", r)
     unl = f.const("encodation::edifact::UNLATCH")
     for ch in range(256):
         if enc_ok.get(ch) is not True:
             continue
         v = ch & 0x3F
-        try:
-            got = T.Folder(f, env={chp: v}, effects=True).run(b["body"])
-        except (T.Trap, T.Undecidable):
-            got = None
+        got = etab[v][0] if etab[v] == [etab[v][0]] * 4 else etab[v]
         obs.append(Ob(r, "EDIFACT:0x%02X" % ch, got == ch and v != unl, "EDIFACT: six-bit value %d of byte 0x%02X decodes back to %r and is not the unlatch value" % (v, ch, got)))
     # ASCII
     tab, site = ascii_dec_table(f, r)
